@@ -4,6 +4,7 @@ import TongoProofs.Lemmas.MinBitsGen
 import TongoProofs.Lemmas.BitStringFift
 import TongoProofs.Lemmas.BitStringCanon
 import TongoProofs.Lemmas.BitStringTopUp
+import TongoProofs.Lemmas.BitStringCell
 /-! Property C06 — bit-string and cell read/write primitives behave like an ideal bit list.
 Property theorems only; helper lemmas live in `TongoProofs/Lemmas/BitString*.lean`.
 
@@ -154,7 +155,7 @@ theorem readBytes_refines (k : Nat) (s : BitString) (hi : Inv s) :
 that itself satisfies the invariant (clean tail: it hashes like the same bits written one by one). -/
 theorem readBits_refines (n : Nat) (s : BitString) (hi : Inv s) (h : s.rCursor + n ≤ s.len) :
     ∃ r, readBits n s = (.ok r, { s with rCursor := s.rCursor + n }) ∧ abs r = nextBits s n ∧ Inv r ∧
-      r.cap = n ∧ r.len = n :=
+      r.cap = n ∧ r.len = n ∧ r.rCursor = 0 :=
   readBits_ok n s hi.len_le_buf h
 
 /-- `ReadBigUint(n)` (repaired) and `ReadBigInt(n)` for every width, 1..257 included. -/
@@ -354,6 +355,45 @@ theorem ref_overflow (c r : MCell) :
     · intro h
       simp only [MCell.nextRef, MCell.refs, MCell.refCursor, List.getElem?_eq_none h]
       by_cases hk : k > 3 <;> simp [hk, Outcome.isErr]
+
+/-- `copyRemaining_spec`: `CopyRemaining` of a cell (≤ 4 references, reference cursor within them, data satisfying the
+invariant, unread bits fitting a cell) returns a new cell holding exactly the unread bits (from the bit cursor on, at
+every alignment; clean tail) and exactly the unread references (from the reference cursor on, in order, each with its
+counters reset as `NextRef` does), with both cursors of the copy at 0. The source keeps its bits, bit cursor and
+reference cursor; its references are the same cells (the unread ones had their counters reset, being shared). -/
+theorem copyRemaining_spec (c : MCell) (hi : Inv c.bits) (hfit : c.bits.len - c.bits.rCursor ≤ MCell.cellBits)
+    (h4 : c.refs.length ≤ 4) (hk : c.refCursor ≤ c.refs.length) :
+    ∃ b, (c.copyRemaining).1 = .ok (MCell.mk b ((c.refs.drop c.refCursor).map MCell.resetCounters) 0) ∧
+      abs b = (abs c.bits).drop c.bits.rCursor ∧ Inv b ∧ b.rCursor = 0 ∧
+      (c.copyRemaining).2 =
+        MCell.mk c.bits (c.refs.take c.refCursor ++ (c.refs.drop c.refCursor).map MCell.resetCounters) c.refCursor :=
+  MCell.copyRemaining_ok c hi hfit h4 hk
+
+/-- `ResetCounters` then `CopyRemaining` copies everything: all bits and all references. -/
+theorem copyRemaining_after_reset (c : MCell) (hi : Inv c.bits) (hfit : c.bits.len ≤ MCell.cellBits)
+    (h4 : c.refs.length ≤ 4) :
+    ∃ b, (c.resetCounters.copyRemaining).1 = .ok (MCell.mk b (c.refs.map MCell.resetCounters) 0) ∧ abs b = abs c.bits := by
+  cases c with
+  | mk b0 rs k =>
+    have hi' : Inv (MCell.resetCounters (MCell.mk b0 rs k)).bits := by
+      obtain ⟨a1, a2, _, a4⟩ := hi
+      exact ⟨a1, a2, Nat.zero_le _, a4⟩
+    obtain ⟨b, h1, h2, _⟩ := MCell.copyRemaining_ok (MCell.resetCounters (MCell.mk b0 rs k)) hi'
+      (by simpa [MCell.resetCounters, MCell.bits] using hfit) (by simpa [MCell.resetCounters, MCell.refs] using h4)
+      (by simp [MCell.resetCounters, MCell.refCursor])
+    exact ⟨b, by simpa [MCell.resetCounters, MCell.refs, MCell.refCursor] using h1,
+      by simpa [MCell.resetCounters, MCell.bits, abs_cursor] using h2⟩
+
+/-- Non-vacuity and the seeded mistake (test on literals): three references, one consumed by `NextRef`, two bits
+skipped — the copy holds the last two references (not the first two) and the unread bits. -/
+example :
+    let child (n : Nat) := MCell.mk (writeUint n 4 (BitString.new 1023)).2 [] 0
+    let c := MCell.mk { (writeUint 0b10110 5 (BitString.new 1023)).2 with rCursor := 2 } [child 1, child 2, child 3] 1
+    (match c.copyRemaining.1 with
+      | .ok c2 => (abs c2.bits, c2.refs.map (fun r => abs r.bits), c2.refCursor)
+      | _ => ([], [], 9)) =
+      ([true, true, false], [natToBits 4 2, natToBits 4 3], 0) ∧ c.copyRemaining.2.refCursor = 1 := by
+  decide +kernel
 
 /-! ## Witnesses of the repaired defects (each replayed on the Go code: corpus/C06/defects.ops) -/
 
